@@ -560,3 +560,77 @@ package weshnet
 //@        && (len(caller_contact.PublicRendezvousSeed) == 32 || len(caller_contact.PublicRendezvousSeed) == 0)
 //@        && (cstate(m)[bytes(caller_contact.Pk)] == 0 || cstate(m)[bytes(caller_contact.Pk)] == 4 || cstate(m)[bytes(caller_contact.Pk)] == 5)
 //@   at (*berty.tech/weshnet/v2.MetadataStore).attributeSignAndAddEvent requires [C07.incoming.not-self] bytes(caller_contact.Pk) != pkv(omd_member(m.memberDevice))
+
+//@ # ======================= C03: only correctly signed metadata events are opened =======================
+//@ # evt_devpk(m): the signer named inside a device-signed event (what its GetDevicePk() returns)
+//@ spec func evt_devpk(m Ref) Bytes
+//@ extern (berty.tech/weshnet/v2.eventDeviceSigned).GetDevicePk(m) (b)
+//@   pure
+//@   ensures bytes(b) == evt_devpk(m)
+//@   ensures typeis(m, "*berty.tech/weshnet/v2/pkg/protocoltypes.GroupMemberDeviceAdded") ==> evt_devpk(m) == bytes(as(m, "*berty.tech/weshnet/v2/pkg/protocoltypes.GroupMemberDeviceAdded").DevicePk)
+//@ # what each checker establishes when it returns nil
+//@ pred sigGroup(g, metadata) = g != nil && len(g.PublicKey) == 32 && verify(bytes(g.PublicKey), bytes(metadata.Payload), bytes(metadata.Sig))
+//@ pred sigDevice(metadata, message) = message != nil && blen(evt_devpk(message)) == 32 && verify(evt_devpk(message), bytes(metadata.Payload), bytes(metadata.Sig))
+//@ pred sigMemberDevice(metadata, message) = typeis(message, "*berty.tech/weshnet/v2/pkg/protocoltypes.GroupMemberDeviceAdded")
+//@     && len(as(message, "*berty.tech/weshnet/v2/pkg/protocoltypes.GroupMemberDeviceAdded").MemberPk) == 32
+//@     && verify(bytes(as(message, "*berty.tech/weshnet/v2/pkg/protocoltypes.GroupMemberDeviceAdded").MemberPk), bytes(as(message, "*berty.tech/weshnet/v2/pkg/protocoltypes.GroupMemberDeviceAdded").DevicePk), bytes(as(message, "*berty.tech/weshnet/v2/pkg/protocoltypes.GroupMemberDeviceAdded").MemberSig))
+//@     && sigDevice(metadata, message) && evt_devpk(message) == bytes(as(message, "*berty.tech/weshnet/v2/pkg/protocoltypes.GroupMemberDeviceAdded").DevicePk)
+//@ func sigCheckerGroupSigned
+//@   for C03
+//@   safety
+//@   requires g != nil && metadata != nil
+//@   ensures [C03.checker.group] result == nil ==> sigGroup(g, metadata)
+//@ func sigCheckerDeviceSigned
+//@   for C03
+//@   safety
+//@   requires metadata != nil
+//@   ensures [C03.checker.device] result == nil ==> sigDevice(metadata, message)
+//@   ensures result == nil && typeis(message, "*berty.tech/weshnet/v2/pkg/protocoltypes.GroupMemberDeviceAdded") ==> evt_devpk(message) == bytes(as(message, "*berty.tech/weshnet/v2/pkg/protocoltypes.GroupMemberDeviceAdded").DevicePk)
+//@ func sigCheckerGroupMemberDeviceAdded
+//@   for C03
+//@   safety
+//@   requires metadata != nil
+//@   ensures [C03.checker.member-device] result == nil ==> sigMemberDevice(metadata, message)
+//@ # a call through a value of type sigChecker behaves as the checker that value is (each verified above); the table
+//@ # eventTypesMapper holds no other function (its content is read from its literal on every run)
+//@ extern functype berty.tech/weshnet/v2.sigChecker(g, metadata, message) (err)
+//@   requires g != nil && metadata != nil
+//@   requires [C03.table.known-checker] isfunc(fnvalue, "berty.tech/weshnet/v2.sigCheckerGroupSigned") || isfunc(fnvalue, "berty.tech/weshnet/v2.sigCheckerDeviceSigned") || isfunc(fnvalue, "berty.tech/weshnet/v2.sigCheckerGroupMemberDeviceAdded")
+//@   ensures err == nil && isfunc(fnvalue, "berty.tech/weshnet/v2.sigCheckerGroupSigned") ==> sigGroup(g, metadata)
+//@   ensures err == nil && isfunc(fnvalue, "berty.tech/weshnet/v2.sigCheckerDeviceSigned") ==> sigDevice(metadata, message)
+//@   ensures err == nil && isfunc(fnvalue, "berty.tech/weshnet/v2.sigCheckerGroupMemberDeviceAdded") ==> sigMemberDevice(metadata, message)
+//@ extern google.golang.org/protobuf/proto.Clone(m) (c)
+//@   noeffect
+//@   ensures c != nil && fresh(c) && dyntypeof(c) == dyntypeof(m)
+//@ # The property: an envelope is opened - metadata and payload returned - only if it decrypts under the group secret,
+//@ # its type is in the table, and the signature of the right signer for that type verifies over the payload bytes:
+//@ # the group key for the initial-member announcement (302), member key over device key plus device key for a
+//@ # member-device announcement (1), the device named inside the event for every other type
+//@ func openGroupEnvelope
+//@   for C03
+//@   safety
+//@   requires g != nil
+//@   ensures [C03.open.nonnil] ret2 == nil ==> ret0 != nil && ret1 != nil && has(eventTypesMapper, ret0.EventType)
+//@   ensures [C03.open.initial-member] ret2 == nil && ret0.EventType == 302 ==> sigGroup(g, ret0)
+//@   ensures [C03.open.member-device] ret2 == nil && ret0.EventType == 1 ==> sigMemberDevice(ret0, ret1)
+//@   ensures [C03.open.device-signed] ret2 == nil && ret0.EventType != 302 && ret0.EventType != 1 ==> sigDevice(ret0, ret1)
+//@   ensures [C03.open.failure] ret2 != nil ==> ret0 == nil && ret1 == nil
+//@ extern berty.tech/go-orbit-db/stores/operation.ParseOperation(e) (op, err)
+//@   noeffect
+//@   ensures err == nil ==> op != nil
+//@ extern (*berty.tech/go-orbit-db/stores/operation.operation).GetValue(op) (v)
+//@   noeffect
+//@ extern (berty.tech/go-orbit-db/stores/operation.Operation).GetValue(op) (v)
+//@   noeffect
+//@ extern berty.tech/weshnet/v2.newGroupMetadataEventFromEntry(log, e, metadata, event, g) (gme, err)
+//@   noeffect
+//@   ensures err == nil ==> gme != nil && gme.Metadata == metadata
+//@ # what the index and the subscribers get is what openGroupEnvelope accepted
+//@ func openMetadataEntry
+//@   for C03
+//@   safety
+//@   requires g != nil
+//@   ensures [C03.entry.accepted] ret2 == nil ==> ret0 != nil && ret1 != nil && ret0.Metadata != nil
+//@        && (ret0.Metadata.EventType == 302 ==> sigGroup(g, ret0.Metadata))
+//@        && (ret0.Metadata.EventType == 1 ==> sigMemberDevice(ret0.Metadata, ret1))
+//@        && (ret0.Metadata.EventType != 302 && ret0.Metadata.EventType != 1 ==> sigDevice(ret0.Metadata, ret1))
